@@ -210,6 +210,20 @@ def check_records(case, ctx: Ctx):
     if case["sort"]:
         keys = list(zip(out["bin1_id"].tolist(), out["bin2_id"].tolist()))
         check(keys == sorted(keys), "sort=True output is not sorted by (bin1_id, bin2_id)")
+    if status == "ok" and case["tril"] is None and not case["sort"]:
+        # the same records with chromosomes given as ids already (decode_chroms=False; unlisted = -1, dropped by the
+        # documented filter whether or not the positions are validated)
+        ids = {nm: k for k, nm in enumerate(bt["names"])}
+        df2 = df_in.copy()
+        df2["chrom1"] = np.array([ids.get(c, -1) for c in df_in["chrom1"]], dtype=np.int64)
+        df2["chrom2"] = np.array([ids.get(c, -1) for c in df_in["chrom2"]], dtype=np.int64)
+        for validate in (True, False):
+            san2 = call("sanitize_records(decode_chroms=False)", sanitize_records, gen.bins_df(bt), schema="pairs", decode_chroms=False,
+                        is_one_based=case["one_based"], tril_action=None, validate=validate)
+            o2 = call(f"sanitize_records(decode_chroms=False, validate={validate})(chunk)", san2, df2.copy())
+            got2 = sorted(zip(o2["rid"].tolist(), o2["bin1_id"].tolist(), o2["bin2_id"].tolist()))
+            want2 = sorted((rid, exp[rid][0], exp[rid][1]) for rid in want_ids)
+            check(got2 == want2, lambda: f"pre-encoded chromosome ids, validate={validate}: (record, bin1, bin2) {got2[:6]} want {want2[:6]}")
     if status == "ok":
         agg = call("aggregate_records()", aggregate_records(), out)
         counts: dict = {}
@@ -285,7 +299,9 @@ def check_pixels(case, ctx: Ctx):
 def cli_pairs_cases(draw):
     bt, recs = draw(record_sets(max_records=12))
     return {"part": "cli_pairs", "bt": bt, "records": recs, "zero_based": draw(st.booleans()),
-            "copy": draw(st.sampled_from(["unique", "unique", "duplex", "square"])),
+            # "square-duplex": -N together with --input-copy-status duplex - the copy status only matters for
+            # symmetric-upper storage, a square matrix keeps every record where it is
+            "copy": draw(st.sampled_from(["unique", "unique", "duplex", "square", "square-duplex"])),
             "chunksize": draw(st.sampled_from([1, 2, 3, 5, 1000])), "perm": draw(st.integers(0, 2**16)),
             "bins_as": draw(st.sampled_from(["bed", "bed", "chromsizes"])), "header": draw(st.booleans())}
 
@@ -323,7 +339,7 @@ def _read_cooler(path):
 
 def check_cli_pairs(case, ctx: Ctx):
     bt, recs = case["bt"], case["records"]
-    tril = {"unique": "reflect", "duplex": "drop", "square": None}[case["copy"]]
+    tril = {"unique": "reflect", "duplex": "drop", "square": None, "square-duplex": None}[case["copy"]]
     status, exp = expected(bt, recs, tril)
     order = np.random.RandomState(case["perm"]).permutation(len(recs)).tolist()
     sh = 0 if case["zero_based"] else 1
@@ -342,9 +358,9 @@ def check_cli_pairs(case, ctx: Ctx):
                 "--chunksize", str(case["chunksize"])]
         if case["zero_based"]:
             args.append("--zero-based")
-        if case["copy"] == "duplex":
+        if case["copy"] in ("duplex", "square-duplex"):
             args += ["--input-copy-status", "duplex"]
-        if case["copy"] == "square":
+        if case["copy"] in ("square", "square-duplex"):
             args.append("-N")
         rc, _, exc = run_cli(args)
         if status == "invalid":
